@@ -242,6 +242,7 @@ struct FragReader<'a> {
     fail_at: usize,
     calls: usize,
     fired: bool,
+    fail_kind: io::ErrorKind,
 }
 
 impl<'a> FragReader<'a> {
@@ -257,6 +258,7 @@ impl<'a> FragReader<'a> {
             fail_at: 0,
             calls: 0,
             fired: false,
+            fail_kind: io::ErrorKind::Other,
         }
     }
     fn with_cuts(data: &'a [u8], cuts: Vec<usize>) -> Self {
@@ -311,7 +313,7 @@ impl<'a> BufRead for FragReader<'a> {
         self.calls += 1;
         if self.fail_at != 0 && self.calls == self.fail_at {
             self.fired = true;
-            return Err(io::Error::new(io::ErrorKind::Other, "one-shot source fault"));
+            return Err(io::Error::new(self.fail_kind, "one-shot source fault"));
         }
         self.next_frag();
         if self.pos >= self.data.len() && self.bad {
@@ -324,6 +326,17 @@ impl<'a> BufRead for FragReader<'a> {
     }
 }
 
+/// error kinds a failing source may report (never `Interrupted`, which std's helpers legitimately retry)
+fn fault_kind(s: &str) -> io::ErrorKind {
+    match s {
+        "wouldblock" => io::ErrorKind::WouldBlock,
+        "timedout" => io::ErrorKind::TimedOut,
+        "invaliddata" => io::ErrorKind::InvalidData,
+        "brokenpipe" => io::ErrorKind::BrokenPipe,
+        _ => io::ErrorKind::Other,
+    }
+}
+
 /// reader kind: `flat` (default), `cur`, `buf:<cap>`, `frag:<seed>:<max>`, `cut:<p1>,<p2>,…`
 enum AnyReader<'a> {
     Flat(&'a [u8], usize),
@@ -333,7 +346,7 @@ enum AnyReader<'a> {
 }
 
 impl<'a> AnyReader<'a> {
-    fn with_fault(data: &'a [u8], rk: &str, fail_at: usize) -> Self {
+    fn with_fault(data: &'a [u8], rk: &str, fail_at: usize, kind: io::ErrorKind) -> Self {
         let mut r = AnyReader::new(data, rk, false);
         if fail_at != 0 {
             if !matches!(r, AnyReader::Frag(_)) {
@@ -341,6 +354,7 @@ impl<'a> AnyReader<'a> {
             }
             if let AnyReader::Frag(f) = &mut r {
                 f.fail_at = fail_at;
+                f.fail_kind = kind;
             }
         }
         r
@@ -419,6 +433,51 @@ impl<'a> BufRead for AnyReader<'a> {
     }
 }
 
+/// a source that itself uses the library the first time it is asked for data (a reader that unpacks an
+/// outer layer lazily): the decoders keep no state outside the call
+struct NestReader<'a> {
+    inner: AnyReader<'a>,
+    armed: bool,
+}
+impl<'a> NestReader<'a> {
+    fn trigger(&mut self) -> io::Result<()> {
+        if self.armed {
+            self.armed = false;
+            let to_io = |e: lzma_rs::error::Error| io::Error::new(io::ErrorKind::Other, format!("{:?}", e));
+            let mut out = Vec::new();
+            let mut a: &[u8] = &[0x01, 0x00, 0x02, b'a', b'b', b'c', 0x00];
+            lzma_rs::lzma2_decompress(&mut a, &mut out).map_err(to_io)?;
+            let mut enc = Vec::new();
+            let mut src: &[u8] = b"nested record";
+            lzma_rs::xz_compress(&mut src, &mut enc)?;
+            lzma_rs::xz_decompress(&mut &enc[..], &mut out).map_err(to_io)?;
+            let mut enc = Vec::new();
+            let mut src: &[u8] = b"nested record";
+            lzma_rs::lzma_compress(&mut src, &mut enc)?;
+            lzma_rs::lzma_decompress(&mut &enc[..], &mut out).map_err(to_io)?;
+            if out != b"abcnested recordnested record" {
+                return Err(io::Error::new(io::ErrorKind::Other, "nested decode produced wrong output"));
+            }
+        }
+        Ok(())
+    }
+}
+impl<'a> Read for NestReader<'a> {
+    fn read(&mut self, buf: &mut [u8]) -> io::Result<usize> {
+        self.trigger()?;
+        self.inner.read(buf)
+    }
+}
+impl<'a> BufRead for NestReader<'a> {
+    fn fill_buf(&mut self) -> io::Result<&[u8]> {
+        self.trigger()?;
+        self.inner.fill_buf()
+    }
+    fn consume(&mut self, amt: usize) {
+        self.inner.consume(amt)
+    }
+}
+
 /// encoder input: `Read::read` returns the scripted fragment sizes
 struct ScriptedRead<'a> {
     data: &'a [u8],
@@ -430,6 +489,7 @@ struct ScriptedRead<'a> {
     fired: bool,
     /// the source itself uses the library while it is being read (a reader that compresses records lazily)
     nest: bool,
+    fail_kind: io::ErrorKind,
 }
 impl<'a> Read for ScriptedRead<'a> {
     fn read(&mut self, buf: &mut [u8]) -> io::Result<usize> {
@@ -449,7 +509,7 @@ impl<'a> Read for ScriptedRead<'a> {
         self.calls += 1;
         if self.fail_at != 0 && self.calls == self.fail_at {
             self.fired = true;
-            return Err(io::Error::new(io::ErrorKind::Other, "one-shot source fault"));
+            return Err(io::Error::new(self.fail_kind, "one-shot source fault"));
         }
         let rest = self.data.len() - self.pos;
         if rest == 0 {
@@ -512,10 +572,14 @@ fn run_oneshot(op: &str, f: &Fields) -> String {
     let data = unhex(get(f, "in"));
     let sink = Sink::parse(get(f, "sink"));
     let rfail: usize = get(f, "rfail").parse().unwrap_or(0);
-    let mut rd = if rfail != 0 {
-        AnyReader::with_fault(&data, get(f, "rk"), rfail)
+    let inner = if rfail != 0 {
+        AnyReader::with_fault(&data, get(f, "rk"), rfail, fault_kind(get(f, "rfk")))
     } else {
         AnyReader::new(&data, get(f, "rk"), get(f, "rbad") == "1")
+    };
+    let mut rd = NestReader {
+        inner,
+        armed: get(f, "nest") == "1",
     };
     let opts = parse_options(f);
     let r = catch_unwind(AssertUnwindSafe(|| {
@@ -527,16 +591,16 @@ fn run_oneshot(op: &str, f: &Fields) -> String {
         }
     }));
     let used = match &r {
-        Ok(Ok(_)) => format!("{}", rd.used()),
+        Ok(Ok(_)) => format!("{}", rd.inner.used()),
         _ => "-".to_string(),
     };
     let mut extra = if get(f, "pos") == "1" {
-        format!(" pos={}", rd.used())
+        format!(" pos={}", rd.inner.used())
     } else {
         String::new()
     };
     if rfail != 0 {
-        extra.push_str(if rd.fired() { " rf=1" } else { " rf=0" });
+        extra.push_str(if rd.inner.fired() { " rf=1" } else { " rf=0" });
     }
     format!(
         "{} used={} {}{}",
@@ -566,11 +630,11 @@ fn run_rawlzma(f: &Fields) -> String {
     for op in get(f, "ops").split(';') {
         let parts: Vec<&str> = op.split(':').collect();
         match parts.as_slice() {
-            ["d", h] => {
+            ["d", h] | ["df", h] => {
                 // a decode after a failed one without reset is executed too (the model leaves its
-                // result unspecified, the safety oracles do not)
+                // result unspecified, the safety oracles do not); `df`: the source fails where the data ends
                 let data = unhex(h);
-                let mut rd = AnyReader::new(&data, get(f, "rk"), false);
+                let mut rd = AnyReader::new(&data, get(f, "rk"), parts[0] == "df");
                 let mut out = Vec::new();
                 let r = catch_unwind(AssertUnwindSafe(|| d.decompress(&mut rd, &mut out)));
                 match &r {
@@ -621,11 +685,11 @@ fn run_rawlzma2(f: &Fields) -> String {
     for op in get(f, "ops").split(';') {
         let parts: Vec<&str> = op.split(':').collect();
         match parts.as_slice() {
-            ["d", h] => {
+            ["d", h] | ["df", h] => {
                 // a decode after a failed one without reset is executed too (the model leaves its
-                // result unspecified, the safety oracles do not)
+                // result unspecified, the safety oracles do not); `df`: the source fails where the data ends
                 let data = unhex(h);
-                let mut rd = AnyReader::new(&data, get(f, "rk"), false);
+                let mut rd = AnyReader::new(&data, get(f, "rk"), parts[0] == "df");
                 let mut out = Vec::new();
                 let r = catch_unwind(AssertUnwindSafe(|| d.decompress(&mut rd, &mut out)));
                 match &r {
@@ -900,6 +964,7 @@ fn run_enc(f: &Fields) -> String {
         calls: 0,
         fired: false,
         nest: get(f, "nest") == "1",
+        fail_kind: fault_kind(get(f, "rfk")),
     };
     let o = get(f, "opt");
     let opt = if o == "skip" {
@@ -972,7 +1037,29 @@ pub fn run_line(line: &str) -> String {
 static CURRENT: AtomicU64 = AtomicU64::new(0);
 static CURRENT_ID: AtomicU64 = AtomicU64::new(u64::MAX);
 
+#[cfg(feature = "logging")]
+struct EvalLogger;
+#[cfg(feature = "logging")]
+impl log::Log for EvalLogger {
+    fn enabled(&self, _: &log::Metadata) -> bool {
+        true
+    }
+    fn log(&self, record: &log::Record) {
+        // evaluate the arguments (that is where code hides), discard the text
+        let s = format!("{}", record.args());
+        std::hint::black_box(s);
+    }
+    fn flush(&self) {}
+}
+#[cfg(feature = "logging")]
+static EVAL_LOGGER: EvalLogger = EvalLogger;
+
 fn main() {
+    #[cfg(feature = "logging")]
+    {
+        let _ = log::set_logger(&EVAL_LOGGER);
+        log::set_max_level(log::LevelFilter::Trace);
+    }
     std::panic::set_hook(Box::new(|_| {}));
     // watchdog: a case that runs longer than the limit is reported as `hang`
     // and the process exits with status 3 (the orchestrator restarts after it).
